@@ -297,6 +297,17 @@ partial def step (s : St) (line : String) : St × String :=
               | some (k, v) => s!"{k}={v}"
               | none => "none"
             ({ s with cursors := s.cursors.insert c path' }, out)
+  | "cl" :: cmd :: c :: more =>
+      -- a cursor move together with the names it loads (nodes that join the path through name links)
+      let inner := " ".intercalate (cmd :: c :: more)
+      let old := (nat c >>= (s.cursors[·]?)).getD []
+      let (s', r) := step s inner
+      let new := (nat c >>= (s'.cursors[·]?)).getD []
+      let loaded := match cmd, more with
+        | "cceil", [k] => Cursor.ceilLoads ((nat k).getD 0) 100000 old
+        | _, _ => Cursor.newLoads old new
+      let names := (loaded.map fun t => bstr (nodeName s.enc t)).toArray.qsort (· < ·) |>.toList
+      (s', r ++ " ;" ++ " ".intercalate names)
   | ["cceil", c, k] =>
       match nat c, nat k with
       | some c, some k =>
